@@ -278,5 +278,9 @@ Definition alloc_points (ip0 : N) (s : state) : list apoint :=
 
 End AllocPoints.
 
+(* the number of objects the points allocate: one per init_xxx (ASecond / AGrow allocate buffers, not objects) *)
+Definition is_object (p : apoint) : bool := match ap_kind p with AObject => true | _ => false end.
+Definition n_objects (l : list apoint) : nat := length (filter is_object l).
+
 (* the collector's view of an allocation point: the VM roots plus the guarded objects *)
 Definition ap_roots (p : apoint) : list N := vm_roots (ap_state p) ++ ap_guards p.
